@@ -23,6 +23,7 @@ FIXED = [
  ("Graph::run could return while samples", "C06", "graphsim: VectorSource -> ... -> sink added in non-topological order: run() returns after the pass in which the source emitted and returned EOF; sink empty/short"),
  ("FftFilterFloat never ended once its output", "C05", "mtgraph (thorough tier, long source): downstream Add ended early (second input of 0 samples), FftFilterFloat's output full with its reader gone -> its WaitForFunc closure drops the wait verdicts, eof() false -> block thread loops forever, MTGraph::run() never returns"),
  ("SymbolSync panicked after 2^24 samples", "C15", "enumerated long-run case: SymbolSync fed 2^24+4096 samples of 0 (no sign change: positions are f32 and are never stepped back), then alternating +-1 -> assert 'stream_pos > last_sym_boundary_pos' fails (16776848 not > 16776848); output had stopped at 2^24 as well"),
+ ("AuEncode asked for one free byte", "C09", "rig (thorough soak, seed 4242 runs 2436/2993): AuEncode with input waiting and exactly 1 byte free in the output answers WaitForStream(dst, 1): already satisfied (misdirected-wait-out), and freeing exactly what was asked for does not let it progress (wait-not-honoured-out)"),
  ("AVX build of Fir::filter_float", "C11", "kernel case on the AVX build flavour: Fir::filter_float(input longer than taps) panics (assert_eq on lengths) while the scalar kernel returns the dot product"),
  ("derive(Block) sync blocks with three or more inputs", "C19", "build: a harness block with three #[rustradio(in)] streams in sync mode fails to compile (nested tuple vs flat pattern in the generated work())"),
  ("Append mode did not create a missing file", "C17", "iosim: Mode::Append on an absent file -> ENOENT although the documentation says it is created"),
